@@ -97,10 +97,18 @@ def tmpl(name, args):
         return ("bi", "round", ("bin", "truediv", X, ("lit", 4)), (("lit", 1),))
     if name == "dyn":
         return ("dyn", args[0], ("loc", args[1]))
+    if name == "lt":
+        return ("bin", "lt", X, ("lit", 4))
+    if name == "eqx":
+        return ("cmp", "eq", X, ("lit", 3))
+    if name == "floor":
+        return ("bi", "floor", ("bin", "truediv", X, ("lit", 4)), ())
+    if name == "rpow":
+        return ("bin", "pow", ("lit", -2), ("bin", "mod", X, ("lit", 3)))
     raise ValueError(name)
 
 
-UNARY = ("mul2", "inc", "neg", "dbl", "pick", "abs", "round1")
+UNARY = ("mul2", "inc", "neg", "dbl", "pick", "abs", "round1", "lt", "eqx", "floor", "rpow")
 BINARY_SYM = ("add", "mul")
 BINARY_ASYM = ("sub",)
 
@@ -489,6 +497,7 @@ class ManagerSystem:
         self.universe = build_universe(world, cfg)
         self.config_info = config_info or {}
         self._model_cache = {}
+        self._checked = set()   # digests whose (deterministic) state checks already ran in this worker
 
     # model replay with a small prefix cache
     def model_of(self, hist):
@@ -580,7 +589,11 @@ class ManagerSystem:
             try:
                 issues.extend(self.transition_checks(w, ms, op, ns, ex, hist))
                 dg = canon(w)
-                issues.extend(self.state_checks(w, ns, hist, op))
+                if dg not in self._checked:
+                    if len(self._checked) > 2000000:
+                        self._checked.clear()
+                    self._checked.add(dg)
+                    issues.extend(self.state_checks(w, ns, hist, op))
             except Exception as e:  # noqa
                 import traceback
                 issues.append(self.issue("violation", hist, op,
